@@ -5,7 +5,7 @@
    premise, are PROVED here (from Grammar{Sound,Complete,Unique}); what remains are the proposal's positivity and unit
    mass over [all_places] (C08) and the weights being target ratios (C08_weights_telescope / C03). *)
 From PV Require Import Model.Grammar Model.Perm Model.Csmc Proofs.ProposalsPoint Proofs.PermNoDup Proofs.PermSound Proofs.PermComplete
-  Proofs.GrammarSound Proofs.GrammarComplete Proofs.GrammarUnique Proofs.GrammarTable Proofs.CsmcSupport Proofs.CsmcTarget Proofs.PgAssembly.
+  Proofs.GrammarSound Proofs.GrammarComplete Proofs.GrammarUnique Proofs.GrammarTable Proofs.CsmcSupport Proofs.CsmcInvariant Proofs.CsmcTarget Proofs.PgAssembly.
 From Coq Require Import Bool Permutation.
 
 Lemma filter_unique {X} (f : X -> bool) (p : X) : forall l, NoDup l -> In p l -> f p = true ->
@@ -181,6 +181,30 @@ Proof.
   - intros sg path Hsg Hp. unfold paths in Hp. rewrite Hn in Hp. apply g_enc; assumption.
   - intros sg path Hsg Hp. unfold paths in Hp. rewrite Hn in Hp. apply Htarget; assumption.
 Qed.
+(* the update is total on the state space: from every forest it returns a tree with probability one (no step loses mass,
+   i.e. no exception path in the model) *)
+Theorem pg_update_mass_grammar :
+  forall (gam : list (list bool) -> Qc) (qp : list nat -> list place -> place -> Qc) (g : list nat -> list place -> Qc)
+         (rs : @swarm place -> bool) (N : nat) (ops : list op),
+    S (count_upd ops) = n ->
+    (forall sg p a, 0 < qp sg p a) -> (forall sg p, 0 < g sg p) ->
+    (forall sg p, sumq (map (qp sg p) (gsup on sg p)) = 1) ->
+    forall t, In t forests -> mass (pg_update gorders gcden (gsup on) qp g gdec genc rs N ops t) = 1.
+Proof.
+  intros gam qp g rs N ops Hn Hq Hg Hm t Ht. unfold mass, pg_update. rewrite E_bind, E_wlist.
+  rewrite (sumq_map_ext _ (fun sg => gcden sg t)); [apply g_cden_sum; exact Ht|]. intros sg Hsg.
+  unfold gcden. destruct (cb sg t) eqn:Hcb; [|ring].
+  destruct (reach_of_cb sg t Hsg Ht Hcb) as [w [Hv Hw]].
+  assert (Henc : genc sg t = w).
+  { rewrite Hw, <- gdec_rev. apply g_enc; [exact Hsg| apply (gpaths_valid sg w Hsg); exact Hv]. }
+  unfold K_sigma. rewrite E_dmap. fold (mass (pg_kernel (q_of (gsup on sg) (qp sg)) (om_of (qp sg) (g sg)) rs N ops (genc sg t))).
+  rewrite (pg_kernel_mass (q_of (gsup on sg) (qp sg)) (om_of (qp sg) (g sg)) rs N).
+  - ring.
+  - apply om_of_pos; [apply Hq| apply Hg].
+  - intros p. apply q_of_mass. apply Hm.
+  - rewrite Henc, (gvalid_length _ _ _ _ Hv). destruct (order_facts sg Hsg) as [_ [Hl _]]. rewrite Hl. symmetry. exact Hn.
+Qed.
+
 (* ---- a closed instance for every n: uniform proposals over the real alphabet, weights = ratios of a target whose last
    value is gamma x order density.  No premise about the proposal or the weights is left. ---- *)
 Definition upos (x : Qc) : Qc := if Qc_eq_bool x 0 then 1 else x.
